@@ -52,8 +52,19 @@ func differentialDecode(in []byte, origin string) (ci caseInfo, err error) {
 	if !bytes.Equal(given, in) || !bytes.Equal(exact, in) {
 		return ci, fmt.Errorf("hsms.Parse modified its input buffer [%s]", origin)
 	}
-	if ok != okExact || (ok && !bytes.Equal(msg.ToBytes(), msgExact.ToBytes())) {
+	// the caller re-uses its buffers: the returned messages must not point into them
+	for i := range slackBuf {
+		slackBuf[i] ^= 0x5A
+	}
+	for i := range exact {
+		exact[i] ^= 0xA5
+	}
+	if ok != okExact {
 		return ci, fmt.Errorf("the verdict depends on the spare capacity of the input slice: ok=%v with spare capacity, ok=%v without, input %s [%s]", ok, okExact, hexPrefix(in, 64), origin)
+	}
+	if ok && !bytes.Equal(msg.ToBytes(), msgExact.ToBytes()) {
+		return ci, fmt.Errorf("the decoded message depends on the caller's buffer (spare capacity, or the buffer being overwritten after the call): %s vs %s for input %s [%s]",
+			hexPrefix(msg.ToBytes(), 40), hexPrefix(msgExact.ToBytes(), 40), hexPrefix(in, 64), origin)
 	}
 	outerOK := len(in) >= 14 && ref.Reason != "outer-length-mismatch"
 	var canon []byte
